@@ -29,6 +29,7 @@ REGISTRY = {
     # beyond the listed properties (evidence under extras/evidence/)
     'X01': ('checks.extras', 'x01'),
     'X02': ('checks.extras', 'x02'),
+    'X03': ('checks.extras', 'x03'),
 }
 
 
